@@ -30,7 +30,7 @@ Rests == <<
   << Sep("---"), Sep("---"), Ln("after a second marker") >>,
   << Sep("---"), Ln("# not yaml: {[ \" '") , Ln("key: value that must not be re-formatted:   x") >>,
   << Sep("---"), Ln("a: 1") >> >>                                    \* looks like YAML, is not to be touched
-Exprs == << ".", ".a = 2", ".new = \"x\"", "del(.a)", ".a |= . + 1" >>
+Exprs == << ".", ".a = 2", ".new = \"x\"", "del(.a)", ".a |= . + 1", "select(.nope)" >>     \* the last one has no result: the rest of the file is still kept
 
 Split(lines) == LET I == {i \in 2..Len(lines) : lines[i].sep} IN
                 IF I = {} THEN <<lines, <<>>>> ELSE LET i == CHOOSE x \in I : \A y \in I : x <= y IN <<SubSeq(lines, 1, i - 1), SubSeq(lines, i, Len(lines))>>
